@@ -3,6 +3,7 @@ import UgoVerif.Spec.Sem
 import UgoVerif.Model.Compile
 import UgoVerif.Gen.Opcodes
 import UgoVerif.Proofs.CompSimProg
+import UgoVerif.Proofs.CompSimFall
 /-
   C02 — compiled execution follows the documented source-level semantics.
 
@@ -20,10 +21,12 @@ import UgoVerif.Proofs.CompSimProg
     with the tables regenerated from opcodes.go and token/token.go;
   * two slices of the simulation theorem compile ⊑ Sem (section "compile ⊑ Sem" below):
     `compile_expr_correct` (expressions over uncaptured scalar locals), `compile_stmt_correct` /
-    `compile_stmts_correct` (`e;`, `x := e`, `var x = e`, `x = e`, `x op= e`, blocks, `if` / `else`, `return`), with
+    `compile_stmts_correct` (`e;`, `x := e`, `var x = e`, `var x`, `var ( … )` groups, `x = e`, `x op= e`, `x++`, `x--`, blocks,
+    `if` / `else` also with an init statement or a boolean literal as condition, `return`), with
     the VM heap related to the reference heap modulo the reference semantics' variable boxes, and
-    the whole-script corollary `C02_fragment` (compile-model output, loaded and run by the VM
-    model's `Run`, returns what `Sem.runProgram` returns).
+    the whole-script corollary `C02_fragment` for ALL scripts of that fragment (compile-model output,
+    loaded and run by the VM model's `Run`, returns what `Sem.runProgram` returns; a script that
+    falls off its end returns `undefined` through the RETURN `Bytecode()` appends: `C02_return_appended`).
 
   `C02_full` (every script's outcome equals the reference semantics Spec/Sem) is NOT
   proved: it is tested by stream `sem` (general, call-heavy, tail-call and try-dense
@@ -412,8 +415,10 @@ theorem vm_tokens_match_source :
     error object from the same name and message (at different addresses: the heaps differ).
 
   `compile_stmt_correct` / `compile_stmts_correct`: a statement (list) of `StmtF` — `e;`, `x := e`,
-  `var x = e`, `x = e`, `x op= e`, `{ … }`, `if c { … }`, `if c { … } else { … }` / `else if`, `return`, `return e`,
-  the empty statement — compiled from `cs` to `cs'` in a state with a function table, outside `try`,
+  `var x = e`, `var x`, `var (a = e; b; …)` (a group of one-name specifications), `x = e`, `x op= e`, `x++`, `x--`, `{ … }`, `if c { … }`, `if c { … } else { … }` / `else if`
+  (`c` an expression of the fragment that is not a boolean literal, or the literal `true`: the compiler
+  then emits the body only, or the literal `false`: a JUMP and the else part only), `if init; c { … }` with or without `else` (`init` a statement of the
+  fragment, its variables in scope of `c`, body and else part), `return`, `return e`, the empty statement — compiled from `cs` to `cs'` in a state with a function table, outside `try`,
   whose slots fit (`CsOK`), the names of `B` resolved to locals (`Cov`); `L` bounds the function's
   `NumLocals` (`fnMax cs'.tables ≤ L`), the local slots `[bp, bp + L)` lie below `sp`.  For EVERY fuel
   on which `Sem.execStmt` / `Sem.execList` completes with `c` (`OutS`):
@@ -433,16 +438,21 @@ theorem vm_tokens_match_source :
   `C02_fragment`: a whole script of the fragment (no `param`), compiled by `Compile.compileFile`,
   loaded into a fresh VM (`loadProg`) and run by `VM.runFrom` (prologue, loop, epilogue): whatever
   `Sem.runProgram` returns on the heap the VM starts with, `Run` returns — the same value for every
-  large enough step budget, or an uncaught `*RuntimeError` with the same name and message — provided
-  the script ends with `return` or `Bytecode()` appended its RETURN (it does unless the stream ends in
-  a RETURN no jump passes over; that scan argument is not proved).  `C02_fragment_list` is the
-  same for `Sem.execList` with the three completions separated (no side condition for `ret` / `thr`).
+  large enough step budget, or an uncaught `*RuntimeError` with the same name and message.  No side
+  condition on the script: when the statement list completes normally, `Bytecode()` has appended its
+  `RETURN 0` (`C02_return_appended`: normal completion in Spec/Sem implies the syntactic predicate `fallL` —
+  no `return` on the path to the end —, and for `fallL` scripts the scan of `Bytecode()` over the stream of
+  the compile model cannot end in "last opcode RETURN, no pending jump": the last instruction is not a
+  RETURN or a jump of the last `if` targets the end; Proofs/CompSimFall, on builder-c05's `Walk` /
+  `LastAt` / `PendOK`), and the VM returns `undefined` there.  The only hypothesis beside "in the fragment,
+  compiles, stack suffices" is that the builtin indices given to the compiler are valid (`< numBuiltins`).
+  `C02_fragment_list` is the same for `Sem.execList` with the three completions separated.
 
   Not covered (the ladder continues): loops (`break` / `continue` patching), captured variables /
   closures / free variables, calls, arrays / maps / index / selector / slice and every other value
   with a heap address (the heap relation then needs an address map), `try` / `catch` / `finally` /
-  `throw` (C03), globals, builtins, `const` declarations, `var` without value or with several names, `++` / `--`, destructuring,
-  `param`, imports / modules, `if` with an init statement or a boolean literal as condition, and the
+  `throw` (C03), globals, builtins, `const` declarations, `var a, b = …` (several names in one specification), destructuring,
+  `param`, imports / modules, `if init; <boolean literal>`, and the
   optimizer (C01).  -/
 
 open UgoVerif.CompSim in
@@ -548,14 +558,26 @@ theorem C02_fragment_list (F : FloatOps) (builtins : List (String × Nat)) (disa
   prog_sim F hF hc hsp t hrel fuel ss ss' c env' t' hsem
 
 open UgoVerif.CompSim in
-/-- **C02_fragment** — whole scripts of the fragment: what `Sem.runProgram` returns (on a heap that
+/-- **C02_return_appended** — a script of the fragment whose statement list completes normally in the
+    reference semantics: `Bytecode()` appended its `RETURN 0` behind the stream of the statement list
+    (so the premise `appended` of `C02_fragment_list`'s normal case holds). -/
+theorem C02_return_appended (F : FloatOps) (builtins : List (String × Nat)) (disabled : List String) (file : List Ast.Stmt)
+    (bc : Compile.Bytecode) (hb : ∀ p ∈ builtins, p.2 < Gen.numBuiltins)
+    (hF : StmtsF [] file = true) (hc : Compile.compileFile builtins disabled file = .ok bc)
+    (fuel : Nat) (env env' : Sem.Env) (ss ss' : Sem.SemSt) (t t' : State)
+    (hsem : exec ((Sem.execList F fuel env file).run ss) t = (.ok ((.normal, env'), ss'), t')) :
+    streamSize builtins disabled file < bc.main.insts.size :=
+  appended_of_fall F hb hF hc (normal_fall F hsem)
+
+open UgoVerif.CompSim in
+/-- **C02_fragment** — ALL whole scripts of the fragment: what `Sem.runProgram` returns (on a heap that
     is the VM's start heap, possibly followed by boxes), `VM.Run` of the compile model's output
-    returns: the same value for every large enough step budget, or an uncaught error with the same
-    name and message. -/
+    returns: the same value for every large enough step budget (`undefined` for a script that falls
+    off its end), or an uncaught error with the same name and message. -/
 theorem C02_fragment (F : FloatOps) (builtins : List (String × Nat)) (disabled : List String) (file : List Ast.Stmt)
-    (bc : Compile.Bytecode) (hF : StmtsF [] file = true) (hc : Compile.compileFile builtins disabled file = .ok bc)
+    (bc : Compile.Bytecode) (hb : ∀ p ∈ builtins, p.2 < Gen.numBuiltins)
+    (hF : StmtsF [] file = true) (hc : Compile.compileFile builtins disabled file = .ok bc)
     (hsp : bc.main.numLocals + needL file ≤ 2048)
-    (happ : streamSize builtins disabled file < bc.main.insts.size ∨ lastIsReturn file = true)
     (t : State) (hrel : HeapRel (startState bc) t)
     (fuel : Nat) (ss ss' : Sem.SemSt) (res : Sem.Result) (t' : State)
     (hsem : exec ((Sem.runProgram F fuel file []).run ss) t = (.ok (res, ss'), t')) :
@@ -564,7 +586,7 @@ theorem C02_fragment (F : FloatOps) (builtins : List (String × Nat)) (disabled 
     | .value v => ∃ n, ∀ fuel, n ≤ fuel → (runFrom F fuel .nil [] (loadProg bc)).1 = VM.Outcome.value v
     | .error a => ∃ (nm msg : String) (n : Nat), ErrIs t'.heap a nm msg ∧ ∀ fuel, n ≤ fuel →
         ∃ a' sfin, runFrom F fuel .nil [] (loadProg bc) = (VM.Outcome.error (.rt a'), sfin) ∧ ErrIs sfin.heap a' nm msg :=
-  prog_sim_run F hF hc hsp happ t hrel fuel ss ss' res t' hsem
+  prog_sim_run_all F hb hF hc hsp t hrel fuel ss ss' res t' hsem
 
 /-! #### non-vacuity: `(1 + x) * 2 < 7 || !b` with `x = 3`, `b = false` -/
 namespace Ex
@@ -700,10 +722,10 @@ theorem hcF : Compile.compileFile [] [] file0 = .ok bc0 := by
   | ok bc => rfl
   | error e => rw [hr] at h; cases h
 
-/-- the script is in the fragment, the stack suffices, it ends with `return` -/
+/-- the script is in the fragment, the stack suffices -/
 theorem hFF : StmtsF [] file0 = true := by decide +kernel
 theorem hspF : bc0.main.numLocals + needL file0 ≤ 2048 := by decide +kernel
-theorem hlastF : lastIsReturn file0 = true := by decide +kernel
+theorem hb0 : ∀ p ∈ ([] : List (String × Nat)), p.2 < Gen.numBuiltins := fun _ h => by cases h
 
 /-- the compiled script: two locals; CONSTANT 0 (3); DEFINELOCAL 0; GETLOCAL 0; CONSTANT 1 (2); BINARYOP *;
     DEFINELOCAL 1; GETLOCAL 1; CONSTANT 2 (5); BINARYOP >; JUMPFALSY 39; GETLOCAL 0; GETLOCAL 1; BINARYOP +;
@@ -733,17 +755,159 @@ example : ∃ n, ∀ fuel, n ≤ fuel → (runFrom F0 fuel .nil [] (loadProg bc0
     | .ok (.value v, ss1), hv =>
       have hv' : v = .int 8#64 := of_decide_eq_true hv
       subst hv'
-      exact (C02_fragment F0 [] [] file0 bc0 hFF hcF hspF (.inr hlastF) (startState bc0) (heapRel_refl _) 40 {} ss1
+      exact (C02_fragment F0 [] [] file0 bc0 hb0 hFF hcF hspF (startState bc0) (heapRel_refl _) 40 {} ss1
+        _ t1 hr).2
+
+/-! #### non-vacuity of the round-5 forms and of the fall-off-the-end case:
+    `x := 3; var y; y = x * 2; x++; if z := x + y; z > 5 { x = z } else { x = 0 }; if true { y -= 1 }; y--;
+     if x > y { x = x - y }` — no `return`: the script falls off its end (behind an `if` without `else`) -/
+
+def file1 : List Stmt :=
+  [ .assign 1 tDefine [.ident 1 "x"] [.int 6 3#64],
+    .declValue 8 tVar [(some 0, [(12, "y")], [])],
+    .assign 14 tAssign [.ident 14 "y"] [.binary 18 tMul (.ident 18 "x") (.int 22 2#64)],
+    .incdec 24 tInc 25 (.ident 24 "x"),
+    .if_ 28 (some (.assign 31 tDefine [.ident 31 "z"] [.binary 36 tAdd (.ident 36 "x") (.ident 40 "y")]))
+      (.binary 43 tGreater (.ident 43 "z") (.int 47 5#64)) 49
+      [.assign 51 tAssign [.ident 51 "x"] [.ident 55 "z"]]
+      (some (.block 64 [.assign 66 tAssign [.ident 66 "x"] [.int 70 0#64]])),
+    .if_ 74 none (.bool 77 true) 82 [.assign 84 tSubAssign [.ident 84 "y"] [.int 89 1#64]] none,
+    .incdec 93 tDec 94 (.ident 93 "y"),
+    .if_ 97 none (.binary 100 tGreater (.ident 100 "x") (.ident 104 "y")) 106
+      [.assign 108 tAssign [.ident 108 "x"] [.binary 112 tSub (.ident 112 "x") (.ident 116 "y")]] none ]
+
+/-- the same script followed by `return x + y` (x = 6, y = 4) -/
+def file2 : List Stmt := file1 ++ [.return_ 120 (some (.binary 127 tAdd (.ident 127 "x") (.ident 131 "y")))]
+
+def bcOf (f : List Stmt) : Compile.Bytecode :=
+  match Compile.compileFile [] [] f with
+  | .ok bc => bc
+  | .error _ => default
+
+theorem hcOf (f : List Stmt) (h : (match Compile.compileFile [] [] f with | .ok _ => true | .error _ => false) = true) :
+    Compile.compileFile [] [] f = .ok (bcOf f) := by
+  unfold bcOf
+  cases hr : Compile.compileFile [] [] f with
+  | ok bc => rfl
+  | error e => rw [hr] at h; cases h
+
+theorem hc1 : Compile.compileFile [] [] file1 = .ok (bcOf file1) := hcOf file1 (by decide +kernel)
+theorem hc2 : Compile.compileFile [] [] file2 = .ok (bcOf file2) := hcOf file2 (by decide +kernel)
+theorem hF1 : StmtsF [] file1 = true := by decide +kernel
+theorem hF2 : StmtsF [] file2 = true := by decide +kernel
+theorem hsp1 : (bcOf file1).main.numLocals + needL file1 ≤ 2048 := by decide +kernel
+theorem hsp2 : (bcOf file2).main.numLocals + needL file2 ≤ 2048 := by decide +kernel
+
+/-- the statement list of `file1` compiles to 97 bytes; `Bytecode()` appends RETURN 0 (99 bytes, three locals) -/
+example : streamSize [] [] file1 = 97 ∧ (bcOf file1).main.insts.size = 99 ∧ (bcOf file1).main.numLocals = 3 ∧
+    (bcOf file1).main.insts[97]? = some 39 ∧ (bcOf file1).main.insts[98]? = some 0 := by decide +kernel
+/-- the syntactic predicate: `file1` may fall off its end, `file2` may not -/
+example : fallL file1 = true ∧ fallL file2 = false := by decide +kernel
+
+/-- evaluated: the reference semantics completes `file1` normally (result `undefined`), `file2` returns 10 … -/
+theorem sem1 : (match (exec ((Sem.runProgram F0 60 file1 []).run {}) (startState (bcOf file1))).1 with
+    | .ok (.value v, _) => decide (v = V.undefined) | _ => false) = true := by decide +kernel
+theorem sem2 : (match (exec ((Sem.runProgram F0 60 file2 []).run {}) (startState (bcOf file2))).1 with
+    | .ok (.value v, _) => decide (v = V.int 10#64) | _ => false) = true := by decide +kernel
+/-- … and so does the VM model's `Run` of the compile model's output -/
+example : (match (runFrom F0 200 .nil [] (loadProg (bcOf file1))).1 with
+    | .value v => decide (v = V.undefined) | _ => false) = true := by decide +kernel
+example : (match (runFrom F0 200 .nil [] (loadProg (bcOf file2))).1 with
+    | .value v => decide (v = V.int 10#64) | _ => false) = true := by decide +kernel
+
+/-- `C02_fragment` applied to the script that falls off its end: for every large enough step budget the
+    VM's `Run` returns `undefined` (through the appended RETURN) -/
+example : ∃ n, ∀ fuel, n ≤ fuel → (runFrom F0 fuel .nil [] (loadProg (bcOf file1))).1 = VM.Outcome.value .undefined := by
+  have hres := sem1
+  cases hr : exec ((Sem.runProgram F0 60 file1 []).run {}) (startState (bcOf file1)) with
+  | mk r t1 =>
+    rw [hr] at hres
+    match r, hres with
+    | .ok (.value v, ss1), hv =>
+      have hv' : v = V.undefined := of_decide_eq_true hv
+      subst hv'
+      exact (C02_fragment F0 [] [] file1 (bcOf file1) hb0 hF1 hc1 hsp1 (startState (bcOf file1)) (heapRel_refl _) 60 {} ss1
+        _ t1 hr).2
+
+/-- … and to the script with the new forms that returns: `Run` returns 10 -/
+example : ∃ n, ∀ fuel, n ≤ fuel → (runFrom F0 fuel .nil [] (loadProg (bcOf file2))).1 = VM.Outcome.value (.int 10#64) := by
+  have hres := sem2
+  cases hr : exec ((Sem.runProgram F0 60 file2 []).run {}) (startState (bcOf file2)) with
+  | mk r t1 =>
+    rw [hr] at hres
+    match r, hres with
+    | .ok (.value v, ss1), hv =>
+      have hv' : v = V.int 10#64 := of_decide_eq_true hv
+      subst hv'
+      exact (C02_fragment F0 [] [] file2 (bcOf file2) hb0 hF2 hc2 hsp2 (startState (bcOf file2)) (heapRel_refl _) 60 {} ss1
+        _ t1 hr).2
+
+/-! #### `if false`: `x := 1; if false { x = 2 } else { x++ }; if false { x = 5 }; return x` — the bodies of the two
+    `if false` are not compiled (JUMP 15; JUMP 24; else part; JUMP 29; GETLOCAL 0; RETURN 1) -/
+
+def file3 : List Stmt :=
+  [ .assign 1 tDefine [.ident 1 "x"] [.int 6 1#64],
+    .if_ 8 none (.bool 11 false) 17 [.assign 19 tAssign [.ident 19 "x"] [.int 23 2#64]]
+      (some (.block 32 [.incdec 34 tInc 35 (.ident 34 "x")])),
+    .if_ 40 none (.bool 43 false) 49 [.assign 51 tAssign [.ident 51 "x"] [.int 55 5#64]] none,
+    .return_ 59 (some (.ident 66 "x")) ]
+
+theorem hc3 : Compile.compileFile [] [] file3 = .ok (bcOf file3) := hcOf file3 (by decide +kernel)
+theorem hF3 : StmtsF [] file3 = true := by decide +kernel
+theorem hsp3 : (bcOf file3).main.numLocals + needL file3 ≤ 2048 := by decide +kernel
+example : (bcOf file3).main.insts = #[1, 0, 0, 40, 0, 12, 0, 0, 0, 15, 12, 0, 0, 0, 24, 5, 0, 1, 0, 0, 8, 12, 6, 0,
+    12, 0, 0, 0, 29, 5, 0, 39, 1] := by decide +kernel
+theorem sem3 : (match (exec ((Sem.runProgram F0 60 file3 []).run {}) (startState (bcOf file3))).1 with
+    | .ok (.value v, _) => decide (v = V.int 2#64) | _ => false) = true := by decide +kernel
+example : (match (runFrom F0 200 .nil [] (loadProg (bcOf file3))).1 with
+    | .value v => decide (v = V.int 2#64) | _ => false) = true := by decide +kernel
+example : ∃ n, ∀ fuel, n ≤ fuel → (runFrom F0 fuel .nil [] (loadProg (bcOf file3))).1 = VM.Outcome.value (.int 2#64) := by
+  have hres := sem3
+  cases hr : exec ((Sem.runProgram F0 60 file3 []).run {}) (startState (bcOf file3)) with
+  | mk r t1 =>
+    rw [hr] at hres
+    match r, hres with
+    | .ok (.value v, ss1), hv =>
+      have hv' : v = V.int 2#64 := of_decide_eq_true hv
+      subst hv'
+      exact (C02_fragment F0 [] [] file3 (bcOf file3) hb0 hF3 hc3 hsp3 (startState (bcOf file3)) (heapRel_refl _) 60 {} ss1
+        _ t1 hr).2
+
+/-! #### a `var` group: `var (a = 1; b; c = a + 2); b = a + c; return b * c` -/
+
+def file4 : List Stmt :=
+  [ .declValue 1 tVar [(some 0, [(6, "a")], [some (.int 10 1#64)]), (some 1, [(13, "b")], []),
+      (some 2, [(16, "c")], [some (.binary 20 tAdd (.ident 20 "a") (.int 24 2#64))])],
+    .assign 28 tAssign [.ident 28 "b"] [.binary 32 tAdd (.ident 32 "a") (.ident 36 "c")],
+    .return_ 39 (some (.binary 46 tMul (.ident 46 "b") (.ident 50 "c"))) ]
+
+theorem hc4 : Compile.compileFile [] [] file4 = .ok (bcOf file4) := hcOf file4 (by decide +kernel)
+theorem hF4 : StmtsF [] file4 = true := by decide +kernel
+theorem hsp4 : (bcOf file4).main.numLocals + needL file4 ≤ 2048 := by decide +kernel
+theorem sem4 : (match (exec ((Sem.runProgram F0 60 file4 []).run {}) (startState (bcOf file4))).1 with
+    | .ok (.value v, _) => decide (v = V.int 12#64) | _ => false) = true := by decide +kernel
+example : (match (runFrom F0 200 .nil [] (loadProg (bcOf file4))).1 with
+    | .value v => decide (v = V.int 12#64) | _ => false) = true := by decide +kernel
+example : ∃ n, ∀ fuel, n ≤ fuel → (runFrom F0 fuel .nil [] (loadProg (bcOf file4))).1 = VM.Outcome.value (.int 12#64) := by
+  have hres := sem4
+  cases hr : exec ((Sem.runProgram F0 60 file4 []).run {}) (startState (bcOf file4)) with
+  | mk r t1 =>
+    rw [hr] at hres
+    match r, hres with
+    | .ok (.value v, ss1), hv =>
+      have hv' : v = V.int 12#64 := of_decide_eq_true hv
+      subst hv'
+      exact (C02_fragment F0 [] [] file4 (bcOf file4) hb0 hF4 hc4 hsp4 (startState (bcOf file4)) (heapRel_refl _) 60 {} ss1
         _ t1 hr).2
 
 end Ex
 /-- the source-level statement (not proved; tested by stream `sem`).  Proved slices of it:
     `compile_expr_correct`, `compile_stmt_correct`, `compile_stmts_correct`, `C02_fragment` above —
-    scripts built from expression statements, `:=` / `var` / `=` / compound assignment on uncaptured scalar
-    locals, blocks, `if` / `else`, `return`.  Still only tested: loops, captured variables / closures,
+    scripts built from expression statements, `:=` / `var` (with or without value, groups) / `=` / compound assignment /
+    `++` / `--` on uncaptured scalar locals, blocks, `if` / `else` (also `if init; c`, `if true`, `if false`), `return`, falling off
+    the end.  Still only tested: loops, captured variables / closures,
     calls, containers (arrays, maps, index, selector, slice), `try` / `catch` / `finally` / `throw`,
-    globals, modules / imports, builtins, `const` declarations, `++` / `--`, destructuring,
-    `param`, and the fall-off-the-end RETURN of `Bytecode()` when the stream ends in a RETURN -/
+    globals, modules / imports, builtins, `const` declarations, `var a, b = …`, destructuring, `param` -/
 def C02_full (Script Input Outcome : Type) (impl sem : Script → Input → Option Outcome) : Prop :=
   ∀ p i o₁ o₂, impl p i = some o₁ → sem p i = some o₂ → o₁ = o₂
 
